@@ -159,6 +159,6 @@ Proof.
   pose proof (fits_somes_length _ _ _ _ Ht HF) as HL. rewrite Nat.sub_0_r in HL.
   split.
   - apply (consolidate_order_free (somes items) out ws); [lia|exact P].
-  - pose proof (shared_out_mid bs items [] out [] 0 n Ht eq_refl ltac:(lia) HF) as H.
-    cbn [app] in H. now rewrite !app_nil_r in H.
+  - destruct (reassembly_offsets bs items out 0 n Ht ltac:(lia) (fits_fitsn _ _ HF)) as [_ H].
+    rewrite H, (seq_out_all_some n bs items out Ht Hn HF). reflexivity.
 Qed.
